@@ -260,6 +260,7 @@ class Run:
         self.hook = AttemptHook.get()
         self.inv_seen = set()
         self.orphans = {}
+        self.orphan_ids = set()
         self.nested_issued = []
         self.tolerated = dict.fromkeys(KINDS, 0)     # records the library kept after a subscribe/register whose send() raised (grey zone)
 
@@ -647,6 +648,8 @@ class Run:
                 # grey zone (see ASSUMPTIONS): nothing was returned to the application, the statement is silent about the internal record
                 self.tolerated[kind] += 1
                 R.seen("send_failure_record_retained", kind)
+                # steering only: the id of such a record is not an "unknown id" for the unmatched-reply step
+                self.orphan_ids.update(set(t.keys()) - {r.wid for r in self.reqs.values() if r.status == "pending"})
                 for rec in t.values():
                     fut = getattr(rec, "on_reply", None)
                     if is_future(fut) and id(fut) not in self.orphans and all(r.fut is not fut for r in self.reqs.values()):
@@ -923,7 +926,7 @@ class Run:
                 # the id of an UNACKNOWLEDGED publish: it went over the wire, but no reply is pending for it
                 un = sorted(r.wid for r in self.reqs.values() if r.status == "unack" and r.wid is not None)
                 wid = un[n % len(un)] if un else None
-            if wid is None or wid in pend or (st["kind"] == "unregister" and wid == 0):
+            if wid is None or wid in pend or wid in self.orphan_ids or (st["kind"] == "unregister" and wid == 0):
                 R.count("skipped_steps")
                 return
             msg, rname = self.reply_of_kind(st["kind"], wid, st.get("variant", "ok"), n)
